@@ -4,6 +4,10 @@ import json, os, subprocess
 ROOT = os.path.dirname(os.path.dirname(os.path.abspath(__file__)))
 
 CHECKS = {
+    "C07": dict(level="exploration", design="DESIGN.md section 5 C07",
+                technique="TLC enumerates token soups and mutation neighbourhoods (Soup.tla) as state spaces; TLC model-checks the row/column machine (Text.tla); outcomes validated by the TLA+ monitor Outcome.tla",
+                text="The input space is a TLA+ state space: every token soup up to length 2 (3) over a 48-token alphabet of the lexer (keywords, identifiers with suffixes, numbers, &H, strings, an unterminated quote, comment mark, operators, punctuation, blank) and every delete / duplicate / swap / truncate at every token of seed programs taken from the repository's tests and the generated families; plus byte-level truncations, seeded random byte strings, random token strings with mixed CR / LF / CR LF and nestings up to depth 200. The real parser and checker run on each text under a watchdog; Outcome.tla admits a checked program or ONE error whose position lies inside the text or immediately at its end (line structure as defined and model-checked in Text.tla). MC_Text checks the position machine against the declarative definition of rows and columns on all texts over {x, CR, LF} up to length 7.",
+                note="The oracle is thin (class of outcome and position only), hence exploration. 'Bounded time' and 'no stack overflow' are observed by watchdog / worker death, not derived from the spec."),
     "C08": dict(level="exploration", design="DESIGN.md section 5 C08",
                 technique="TLC enumerates the call space (Calls.tla) as a state space; outcomes of the real runs validated by the TLA+ monitor Outcome.tla",
                 text="The input space is a TLA+ state space: every built-in function and statement x every tuple of statically admissible argument classes (boundary numbers, each numeric variable type, expressions, array elements, empty / non-ASCII / long / fixed-length strings, open / closed / invalid handles) x expression wrapper x program position (main, inside a SUB, with an error handler active) - 70 815 states, enumerated by TLC. Each is rendered and given to the real checker; what it accepts is compiled and run on several console inputs (empty, number, text, commas, long line, non-UTF-8 bytes); accepted programs of the C01/C03/C04/C05 families and of the repository's own tests run too. Outcome.tla admits only: normal end, a BASIC run-time error with a known code and a position inside the text, or the instruction budget.",
